@@ -159,7 +159,7 @@ class C15(CheckBase):
         if loader is not None:
             cfg["loader"] = loader
         if spec.get("file"):
-            path = world.path("tpl", spec["file"])
+            path = world.path("tpl", spec.get("dir", "d"), spec["file"])
             return cls(path, **cfg)
         return cls(spec["body"], **cfg)
 
@@ -216,6 +216,17 @@ class C15(CheckBase):
                         ta["config"].pop(name, None)
             if name in ("implicit_i18n_translate",):
                 pass
+            if name not in ("class", "class_module", "filename") and \
+                    ch.coin(0.35):
+                fn = ch.pick(["index.pt", "a_rather_long_template_name.pt"])
+                for i, t in enumerate((ta, tb)):
+                    t["cls"] = "PageTemplateFile"
+                    t["file"] = fn
+                    # same directory is only possible when the bodies agree
+                    t["dir"] = "d" if ta["body"] == tb["body"] and \
+                        ch.coin(0.5) else "d%d" % i
+                if ta["dir"] == "d":
+                    tb["dir"] = "d"
             if ch.coin(0.5):
                 ta, tb = tb, ta
             case["family"] = name
@@ -259,7 +270,9 @@ class C15(CheckBase):
                 spec["body"] = "Hello ${name}, ${len(items)} items. $${esc}\n" * (1 + ch.choose(20))
             elif k == 1:
                 spec["cls"] = "PageTemplateFile"
-                spec["file"] = "t%d.pt" % i
+                spec["file"] = ch.pick(["t%d.pt" % i, "index.pt",
+                                        "a_rather_long_template_name.pt"])
+                spec["dir"] = "d%d" % i
             elif k == 2:
                 spec["config"]["strict"] = False
                 spec["body"] = body + '<p tal:condition="False" tal:content="a b">x</p>'
@@ -287,6 +300,8 @@ class C15(CheckBase):
             for _ in range(nf):
                 faults.append({"proc": ch.pick(["A", "A", "A", "B"]),
                                "frac": ch.choose(10_000) / 10_000.0,
+                               "kfrac": ch.choose(10_000) / 10_000.0,
+                               "span": ch.pick([1, 1, 1, 2, 3]),
                                "kind": ch.pick(kinds)})
             case["faults"] = faults
             case["snap_fracs"] = [ch.choose(1000) / 1000.0
@@ -310,8 +325,9 @@ class C15(CheckBase):
                 faults.append({"proc": procs[0]["name"] if not same_proc
                                else "P",
                                "frac": ch.choose(10_000) / 10_000.0,
+                               "kfrac": ch.choose(10_000) / 10_000.0,
                                "kind": ch.pick(["crash", "crash", "enospc",
-                                                "eacces"])})
+                                                "eacces", "eio"])})
             case["faults"] = faults
             case["snap_fracs"] = [ch.choose(1000) / 1000.0
                                   for _ in range(ch.choose(3))]
@@ -347,26 +363,36 @@ class C15(CheckBase):
         per-process event counts measured by a fault-free dry run."""
         for f in case.get("faults", ()):
             if "at" in f:
-                world.plan[f"{f['proc']}#{f['at']}"] = {"kind": f["kind"]}
+                world.plan[f"{f['proc']}#{f['at']}"] = {
+                    "kind": f["kind"], "span": f.get("span", 1)}
                 continue
             at = self._position(f, dry_counts)
             if at:
-                world.plan[f"{f['proc']}#{at}"] = {"kind": f["kind"]}
+                world.plan[f"{f['proc']}#{at}"] = {"kind": f["kind"],
+                                                   "span": f.get("span", 1)}
 
     @staticmethod
     def _position(f: dict, kinds_by_proc: dict) -> int:
         """1-based index of the fs call of f['proc'] at which the fault
-        fires: the frac-th call among those where this kind of fault can
-        apply (any call, for a crash)."""
+        fires.  The *kind* of call is drawn first (uniformly over the kinds
+        this process performs and at which the fault applies), then the
+        occurrence within that kind - so a lone 'rename' is hit as often
+        as one of eighty 'write's."""
         from ..fs import APPLICABLE
         kinds = kinds_by_proc.get(f["proc"], [])
-        if f["kind"] == "crash":
-            idx = list(range(1, len(kinds) + 2))   # +1: after the last call
-        else:
-            ok = APPLICABLE[f["kind"]]
-            idx = [i + 1 for i, k in enumerate(kinds) if k in ok]
-        if not idx:
+        if not kinds:
             return 0
+        if f["kind"] == "crash":
+            present = sorted(set(kinds)) + ["<end>"]
+        else:
+            present = sorted(set(kinds) & APPLICABLE[f["kind"]])
+        if not present:
+            return 0
+        kf = f.get("kfrac", f["frac"])
+        kind = present[min(int(kf * len(present)), len(present) - 1)]
+        if kind == "<end>":
+            return len(kinds) + 1
+        idx = [i + 1 for i, k in enumerate(kinds) if k == kind]
         return idx[min(int(f["frac"] * len(idx)), len(idx) - 1)]
 
     def _dry_counts(self, case: dict) -> dict:
@@ -395,7 +421,9 @@ class C15(CheckBase):
         temps = case["templates"]
         for spec in temps:
             if spec.get("file"):
-                with real.open(world.path("tpl", spec["file"]), "w") as f:
+                d = world.path("tpl", spec.get("dir", "d"))
+                os.makedirs(d, exist_ok=True)
+                with real.open(os.path.join(d, spec["file"]), "w") as f:
                     f.write(spec["body"])
         violations: list[dict] = []
         stats = {"fired": {}, "skipped": {}, "ops": 0, "observers": 0}
@@ -687,6 +715,10 @@ class C15(CheckBase):
             d = copy.deepcopy(c)
             del d["faults"][i]
             yield d
+            if c["faults"][i].get("span", 1) > 1:
+                d = copy.deepcopy(c)
+                d["faults"][i]["span"] -= 1
+                yield d
         for pi in range(len(c["phases"])):
             if len(c["phases"]) > 1:
                 d = copy.deepcopy(c)
